@@ -827,6 +827,14 @@ impl ReaderToken {
     pub fn is_readonly(&self) -> bool {
         self.concurrency_level == ConcurrencyLevel::NoWriteReadOnly
     }
+
+    /// Returns true if this token was issued by `manager` (and is therefore counted by it).
+    pub(crate) fn issued_by(&self, manager: &VersionManager) -> bool {
+        match &self.release_callback {
+            Some(cb) => Arc::ptr_eq(&cb.version_manager, &manager.state),
+            None => manager.concurrency_level() == ConcurrencyLevel::NoWriteReadOnly,
+        }
+    }
 }
 
 impl Drop for ReaderToken {
@@ -908,6 +916,14 @@ impl WriterToken {
     #[inline]
     pub fn allows_concurrent_writers(&self) -> bool {
         self.concurrency_level.allows_concurrent_writers()
+    }
+
+    /// Returns true if this token was issued by `manager` (and is therefore counted by it).
+    pub(crate) fn issued_by(&self, manager: &VersionManager) -> bool {
+        match &self.release_callback {
+            Some(cb) => Arc::ptr_eq(&cb.version_manager, &manager.state),
+            None => false,
+        }
     }
 }
 
